@@ -71,6 +71,7 @@ Inductive op :=
 (* harness control *)
 | ONop                              (* harness-only step (e.g. hostile directory content on disk) *)
 | OSetFault (id : nat) (k : nat)    (* the k-th next call through wrapper id fails *)
+| OSetIo (m : iomode)              (* from now on reads and/or writes and flushes on handles fail *)
 | OClearLog.
 
 Record snapentry := mkSnap {
@@ -336,11 +337,14 @@ Section Run.
     | OHReadToEnd r => run_handle_op (o := HReadToEnd) rs r VBytes
     | OSetFault id k =>
         let st := rs_store rs in
-        (mkRS (mkStore (st_bases st) (st_handles st) (st_log st) (Some (id, k))) (rs_regs rs), Ok VUnit)
+        (mkRS (mkStore (st_bases st) (st_handles st) (st_log st) (Some (id, k)) (st_io st)) (rs_regs rs), Ok VUnit)
+    | OSetIo m =>
+        let st := rs_store rs in
+        (mkRS (mkStore (st_bases st) (st_handles st) (st_log st) (st_fault st) m) (rs_regs rs), Ok VUnit)
     | ONop => (rs, Ok VUnit)
     | OClearLog =>
         let st := rs_store rs in
-        (mkRS (mkStore (st_bases st) (st_handles st) [] None) (rs_regs rs), Ok VUnit)
+        (mkRS (mkStore (st_bases st) (st_handles st) [] None IoOff) (rs_regs rs), Ok VUnit)
     | _ =>
         let '(st, r) := run bhandler (op_prog o) (rs_store rs) in
         (mkRS st (rs_regs rs), r)
@@ -352,7 +356,7 @@ Section Run.
     | [] => []
     | o :: ops' =>
         let st0 := rs_store rs in
-        let rs0 := mkRS (mkStore (st_bases st0) (st_handles st0) [] (st_fault st0)) (rs_regs rs) in
+        let rs0 := mkRS (mkStore (st_bases st0) (st_handles st0) [] (st_fault st0) (st_io st0)) (rs_regs rs) in
         let '(rs', r) := run_op idx o rs0 in
         (r, reverse (st_log (rs_store rs'))) :: run_ops (S idx) ops' rs'
     end.
@@ -431,7 +435,7 @@ Section Run.
         | _, _ => (rs, Panic)
         end
     | OHRead _ _ | OHSeek _ _ | OHWrite _ _ | OHFlush _ | OHDrop _ | OHReadToEnd _
-    | OSetFault _ _ | ONop | OClearLog => run_op idx o rs
+    | OSetFault _ _ | OSetIo _ | ONop | OClearLog => run_op idx o rs
     | _ =>
         let '(st, r) := exec_async (orc idx) (op_prog o) (rs_store rs) in
         (mkRS st (rs_regs rs), r)
@@ -442,7 +446,7 @@ Section Run.
     | [] => []
     | o :: ops' =>
         let st0 := rs_store rs in
-        let rs0 := mkRS (mkStore (st_bases st0) (st_handles st0) [] (st_fault st0)) (rs_regs rs) in
+        let rs0 := mkRS (mkStore (st_bases st0) (st_handles st0) [] (st_fault st0) (st_io st0)) (rs_regs rs) in
         let '(rs', r) := run_op_async idx o rs0 in
         (r, reverse (st_log (rs_store rs'))) :: run_ops_async (S idx) ops' rs'
     end.
@@ -456,7 +460,7 @@ Definition init_base (k : basekind) : bstate :=
   | KEmb files => BEmb (emb_new files)
   | KPhysDir files => BPhys (phys_of_files files)
   end.
-Definition init_store (ks : list basekind) : store := mkStore (map init_base ks) [] [] None.
+Definition init_store (ks : list basekind) : store := mkStore (map init_base ks) [] [] None IoOff.
 
 Record case := mkCase { c_bases : list basekind; c_cfg : list fsref; c_ops : list op }.
 
